@@ -498,6 +498,27 @@ static void runFields(Rng& rng, const std::vector<Field>& fields, const char* ki
 		if (rs.cursor() != rat)
 			viol(fmt("stream.read-cursor|w=%u", f.w), fmt("BitReadStreamT<%u>: cursor %u after reading to bit %u", CAP, unsigned(rs.cursor()), rat));
 	}
+	// the same fields with both streams opened on one buffer up front: field by field, written then read at once
+	// (a reader is a view of the buffer, whenever it was opened)
+	{
+		Buf shared;
+		memset(static_cast<void*>(&shared), 0xFF, sizeof shared);
+		ffsm2::detail::BitWriteStreamT<CAP> ws2{shared, static_cast<ffsm2::Long>(startCursor)};
+		ffsm2::detail::BitReadStreamT<CAP> rs2{shared, static_cast<ffsm2::Long>(startCursor)};
+		unsigned pos = startCursor;
+		for (const Field& f : fields) {
+			wt[f.w - 1](ws2, f.v);
+			const uint32_t v = rt[f.w - 1](rs2);
+			pos += f.w;
+			g_stats.add2("ops", "stream.write-then-read");
+			if (v != f.v) {
+				viol(fmt("stream.read!=written|interleaved|w=%u", f.w), fmt("BitReadStreamT<%u> opened before the write: read<%u> at bit %u returned 0x%x, written 0x%x; fields: %s", CAP, f.w, pos - f.w, v, f.v, l.text.c_str()));
+				break;
+			}
+			if (rs2.cursor() != pos || ws2.cursor() != pos) { viol("stream.cursor|interleaved", fmt("BitStreams<%u>: cursors %u/%u after field ending at bit %u", CAP, unsigned(ws2.cursor()), unsigned(rs2.cursor()), pos)); break; }
+		}
+		if (memcmp(&shared, &g.buf, sizeof shared) != 0) viol("stream.buffer!=reference|interleaved", fmt("StreamBufferT<%u>: interleaved writing produced other bytes than sequential writing", CAP));
+	}
 	// buffer equality operators agree with byte comparison
 	{
 		Buf other; memcpy(static_cast<void*>(&other), &g.buf, sizeof other);
